@@ -144,6 +144,10 @@ class SymBytes:
         else:
             if self.parent is not None:
                 raise symx.Abort()
+            if isinstance(value, SymBytes) and value.kind == "ndarray":
+                # CPython refuses objects that implement the number protocol (every ndarray does) as the value of a
+                # bytearray slice assignment -- validated in validate_model
+                raise TypeError("can assign only bytes, buffers, or iterables of ints in range(0, 256)")
             # bytearray: the slice is replaced, the container may change its length
             root.content = lambda p: z3.If(p < s0, old(p), z3.If(p < s0 + vlen, vsnap(p - s0), old(p - vlen + ln)))
             root.length = z3.simplify(root.length - ln + vlen)
@@ -499,10 +503,11 @@ def harness(cfg):
                     e.prove(z3.BoolVal(r.shape is not None and len(r.shape) == nd and all(a is b_ for a, b_ in zip(r.shape, dims))), f"{prim}: the view has the requested shape", det)
                 e.prove(z3.Implies(z3.And(0 <= p, p < cap.e), native.at(p) == pre(p)), f"{prim}: the buffer is not modified", det)
             elif prim == "update_from_xbuffer":
-                skind = kind if variant_.startswith("same") else ("BufferByteArray" if kind == "BufferNumpy" else "BufferNumpy")
-                sctx = ctx if variant_ == "same_context" else _Ctx("B")
-                snative = SymBytes(NATIVE[skind if variant_ != "same_context" else kind], length=slen.e, name="src")
-                sb = mkbuf(skind if variant_ != "same_context" else kind, snative, sctx)
+                # (a context may hold buffers of both kinds: "same_context_other_kind")
+                skind = ("BufferByteArray" if kind == "BufferNumpy" else "BufferNumpy") if variant_.endswith("other_kind") else kind
+                sctx = ctx if variant_.startswith("same_context") else _Ctx("B")
+                snative = SymBytes(NATIVE[skind], length=slen.e, name="src")
+                sb = mkbuf(skind, snative, sctx)
                 spre = snative.snapshot()
                 e.assume(z3.And(inside_dst, inside_src))
                 b.update_from_xbuffer(off, sb, so, n)
@@ -567,6 +572,23 @@ def validate_model():
                         if m != outcome:
                             bad += 1
                             msgs.append(f"assign {kind} L={L} [{a}:{b}] = {vl} bytes: model {m!r} real {outcome!r}")
+    # across the two kinds: bytearray[a:b] = int8 ndarray is a TypeError (whatever the lengths); ndarray[a:b] = bytearray
+    # of the same length is accepted
+    for L, vl in ((4, 4), (4, 2), (0, 0), (3, 1)):
+        n += 2
+        try:
+            x = bytearray(range(10, 10 + L))
+            x[0:L] = np.frombuffer(bytes(range(100, 100 + vl)), dtype="int8")
+            bad += 1
+            msgs.append(f"assign bytearray[0:{L}] = ndarray of {vl}: model TypeError, real accepted")
+        except TypeError:
+            pass
+        if vl == L:
+            y = np.frombuffer(bytearray(range(10, 10 + L)), dtype="int8").copy()
+            y[0:L] = bytearray(range(100, 100 + vl))
+            if bytes(bytearray(y)) != bytes(range(100, 100 + vl)):
+                bad += 1
+                msgs.append(f"assign ndarray[0:{L}] = bytearray of {vl}: real content differs from the value")
     return n, bad, msgs[:5]
 
 
@@ -701,9 +723,9 @@ def byte_case(CASE):
                 if now == pre or now[:off] != pre[:off] or now[off + isz :] != pre[off + isz :]:
                     fail(prim + ": a write through the typed view does not change exactly the bytes of that element in the buffer")
         elif prim == "update_from_xbuffer":
-            skind = kind if variant.startswith("same") else ("BufferByteArray" if kind == "BufferNumpy" else "BufferNumpy")
-            sctx = ctx if variant == "same_context" else ContextCpu()
-            s = K[skind if variant != "same_context" else kind](capacity=slen, context=sctx)
+            skind = ("BufferByteArray" if kind == "BufferNumpy" else "BufferNumpy") if variant.endswith("other_kind") else kind
+            sctx = ctx if variant.startswith("same_context") else ContextCpu()
+            s = K[skind](capacity=slen, context=sctx)
             fill(s, slen, 11)
             spre = img(s)
             b.update_from_xbuffer(off, s, so, n)
@@ -839,7 +861,7 @@ def main(pid):
         jobs += [("update_from_native", kind, "other"), ("update_from_native", kind, "self"), ("copy_to_native", kind, "-"), ("update_from_buffer", kind, "-"), ("to_native", kind, "-"), ("to_bytearray", kind, "-"), ("to_pointer_arg", kind, "-")]
         jobs += [("update_from_native", kind, "other+grown"), ("copy_to_native", kind, "-+grown"), ("update_from_buffer", kind, "-+grown"), ("to_native", kind, "-+grown"), ("to_bytearray", kind, "-+grown"), ("update_from_xbuffer", kind, "same_context+grown")]
         jobs += [("update_from_buffer", kind, f"memoryview/{k}") for k in (2, 4, 8)]
-        jobs += [("update_from_xbuffer", kind, v) for v in ("same_context", "other_context_same_kind", "other_context_other_kind")]
+        jobs += [("update_from_xbuffer", kind, v) for v in ("same_context", "same_context_other_kind", "other_context_same_kind", "other_context_other_kind")]
         # the NumPy half: offset/length arithmetic for every count and shape (conversion itself is stub S16)
         pairs = [("float64", "float64"), ("int16", "int16"), ("int32", "float64"), ("float64", "int8"), ("uint8", "uint64")]
         if tr == "thorough":
